@@ -10,6 +10,8 @@ PKG = {
     "mp4ff-crop": "cmd/mp4ff-crop",
     "mp4ff-encrypt": "cmd/mp4ff-encrypt",
     "mp4ff-decrypt": "cmd/mp4ff-decrypt",
+    "mp4ff-nallister": "cmd/mp4ff-nallister",
+    "mp4ff-pslister": "cmd/mp4ff-pslister",
     "segmenter": "examples/segmenter",
     "resegmenter": "examples/resegmenter",
     "combine-segs": "examples/combine-segs",
